@@ -18,4 +18,5 @@ func registerAll() {
 	core.Register("C05", execC05)
 	core.Register("C10", execC10)
 	core.Register("C11", execC11)
+	core.Register("C03", execC03)
 }
